@@ -1,6 +1,8 @@
 import Zstd.Model.FrameDecoder
 import Zstd.Proofs.FrameDecoderStandIn
 import Zstd.Proofs.FrameFaithful
+import Zstd.Proofs.FrameDecoderFull
+import Zstd.Proofs.DictParse
 import Zstd.Proofs.BlockRefines
 import Zstd.Proofs.BlkLitFull
 import Zstd.Props.C13
@@ -17,11 +19,35 @@ below (kept visible; see `decodeFrame_refines_partial` for what is proved of it 
 namespace Zstd.Props.C01
 open Zstd Zstd.Model
 
-/-- the full statement: every frame the Spec accepts is decoded by the model to the same content,
-consuming the same number of bytes, with the declared metadata, however it is driven (C06) -/
+/-- **the full statement, over the EXECUTABLE model** (`DecB`: the frame-level model with the faithful
+block decoder `Blk.decompressBlock`, the one engines `dec` / `hostile` compare with the real code line by
+line): for every byte string `f` that is exactly one frame the Spec accepts (`Spec.decodeFrame f [] =
+some r` with `r.consumed = f.length` — trailing bytes are ignored by `Spec.decodeFrame` but, rightly,
+rejected by `decode_all`: see the example below), whose window is within the decoder's limit (a larger
+one is refused on purpose: C11),
+* `decode_all` into any target of at least the content's size returns exactly the content, and
+* `reset` + `decode_blocks(All)` + `collect()` report the frame finished and hand out exactly the content.
+Proved: `decoder_reproduces_content` (no stand-in, no hypothesis left).  Dictionaries:
+`C01_full_dicts` / `decoder_reproduces_content_dicts`; every drain schedule: C06. -/
 def C01_full : Prop :=
-  ∀ (f : List Nat) (r : Spec.FrameResult), Spec.decodeFrame f = some r →
-    ∃ d' out, (({} : DecA).decodeAll f r.content.length) = (d', .ok out) ∧ out.toList = r.content
+  ∀ (f : List Nat) (r : Spec.FrameResult), (∀ x ∈ f, x < 256) → Spec.decodeFrame f [] = some r →
+    r.consumed = f.length → r.header.window ≤ ({} : DecB).maxWindow →
+    (∀ room, r.content.length ≤ room → ∃ d', ({} : DecB).decodeAll f room = (d', .ok r.content.toArray)) ∧
+    (∃ d0 rest d1, ({} : DecB).reset f = (d0, .ok rest) ∧ d0.decodeBlocks rest .all = (d1, .ok ([], true)) ∧
+      d1.isFinished = true ∧ (d1.collect).2 = some r.content.toArray ∧ (d1.collect).1.canCollect = 0)
+
+/-- … with dictionaries: the decoder's dictionaries registered through `add_dict` of the parsed bytes
+`raws` (`registerDicts`), each of which the Spec parses; the frame valid w.r.t. the Spec's parse of the
+same bytes (`specRegisterDicts`) -/
+def C01_full_dicts : Prop :=
+  ∀ (raws : List (List Nat)) (f : List Nat) (r : Spec.FrameResult),
+    (∀ raw ∈ raws, (∀ x ∈ raw, x < 256) ∧ (Spec.parseDict raw).isSome = true) → (∀ x ∈ f, x < 256) →
+    Spec.decodeFrame f (specRegisterDicts [] raws) = some r →
+    r.consumed = f.length → r.header.window ≤ ({} : DecB).maxWindow →
+    (∀ room, r.content.length ≤ room →
+      ∃ d', (registerDicts {} raws).decodeAll f room = (d', .ok r.content.toArray)) ∧
+    (∃ d0 rest d1, (registerDicts {} raws).reset f = (d0, .ok rest) ∧ d0.decodeBlocks rest .all = (d1, .ok ([], true)) ∧
+      d1.isFinished = true ∧ (d1.collect).2 = some r.content.toArray ∧ (d1.collect).1.canCollect = 0)
 
 /-- block headers: on every 3-byte pattern the model (table and guard from the source) agrees with
 the RFC bit-fields, and accepts exactly the legal ones (type ≠ reserved, size ≤ 128 KiB) -/
@@ -194,10 +220,8 @@ decoded by `reset` + `decode_blocks(All)`: `Ok(true)`, the buffer holds exactly 
 `is_finished()`, `bytes_read_from_source()` = the Spec's frame length, the source left is the input
 minus exactly that, the stored checksum is the frame's (which the Spec has verified to be
 `low32(XXH64(content))`), nothing hashed yet.  `collect()` then hands out the content (C06/C08).
-Missing for `C01_full`: (a) the real entropy decoders in place of the stand-ins (C12/C13 refinements);
-(b) `decode_all` instead of `reset + decode_blocks(All)` — needs `SchedOk` from Spec validity (C06);
-(c) `C01_full` as worded is false for inputs with trailing bytes after the frame (`Spec.decodeFrame`
-ignores them, `decode_all` rejects them): it needs the hypothesis `r.consumed = f.length`. -/
+`C01_full` is this theorem at the executable instance, through `decode_all` as well
+(`decoder_reproduces_content` at the end of this file). -/
 theorem decodeFrame_refines_partial {σ : Type} [BlockDec σ] [BlockContract σ] [RefinesSpec σ]
     (d : Decoder σ) (sdicts : List Spec.Dict) (hdc : DictsCoupled d.dicts sdicts)
     (f : List Nat) (hb : ∀ x ∈ f, x < 256) (r : Spec.FrameResult)
@@ -234,7 +258,7 @@ theorem decoder_reproduces_content_any_schedule_partial {σ : Type} [BlockDec σ
 example : (Spec.decodeFrame [0x28, 0xB5, 0x2F, 0xFD, 0x20, 3, 0x19, 0, 0, 97, 98, 99] []).map (·.content) = some [97, 98, 99] := by
   decide +kernel
 
-/-- `C01_full` as worded does not hold: trailing bytes after a valid frame are ignored by
+/-- why `C01_full` asks for `r.consumed = f.length`: trailing bytes after a valid frame are ignored by
 `Spec.decodeFrame` but rejected by `decode_all` -/
 example : (Spec.decodeFrame [0x28, 0xB5, 0x2F, 0xFD, 0x20, 3, 0x19, 0, 0, 97, 98, 99, 0] []).map (·.content) = some [97, 98, 99] ∧
     ((({} : DecA).decodeAll [0x28, 0xB5, 0x2F, 0xFD, 0x20, 3, 0x19, 0, 0, 97, 98, 99, 0] 3).2.isOk) = false := by
@@ -445,5 +469,47 @@ theorem decodeFrame_refines_faithful (d : DecB) (hnd : d.dicts = [])
       st1.buf.content.toList = r.content ∧ d1.isFinished = true ∧ st1.bytesRead = r.consumed ∧
       st1.checksum = r.checksum ∧ st1.buf.hashed = #[] ∧ r.consumed ≤ f.length :=
   decodeFrame_refines_partial d [] (by rw [hnd]; exact .nil) f hb r hs hlim
+
+/-- C01 for EVERY block decoder satisfying the contracts (both instances do): a frame the Spec accepts,
+given alone — `decode_all` returns exactly the content; `reset` + `decode_blocks(All)` + `collect()`
+hand out exactly the content -/
+theorem decoder_reproduces_content_of_contract {σ : Type} [BlockDec σ] [BlockContract σ] [RefinesSpec σ]
+    (d : Decoder σ) (sdicts : List Spec.Dict) (hdc : DictsCoupled d.dicts sdicts)
+    (f : List Nat) (hb : ∀ x ∈ f, x < 256) (r : Spec.FrameResult)
+    (hs : Spec.decodeFrame f sdicts = some r) (hcons : r.consumed = f.length) (hlim : r.header.window ≤ d.maxWindow) :
+    (∀ room, r.content.length ≤ room → ∃ d', d.decodeAll f room = (d', .ok r.content.toArray)) ∧
+    (∃ d0 rest d1, d.reset f = (d0, .ok rest) ∧ d0.decodeBlocks rest .all = (d1, .ok ([], true)) ∧
+      d1.isFinished = true ∧ (d1.collect).2 = some r.content.toArray ∧ (d1.collect).1.canCollect = 0) := by
+  refine ⟨fun room hroom => Decoder.decodeAll_valid_frame d sdicts hdc f hb r hs hlim hcons room hroom, ?_⟩
+  obtain ⟨d0, rest, d1, h1, h2, h3, h4, h5⟩ := Decoder.reset_blocks_collect_valid_frame d sdicts hdc f hb r hs hlim
+  refine ⟨d0, rest, d1, h1, ?_, h3, h4, h5⟩
+  rw [h2, hcons]; simp
+
+/-- **`C01_full` holds.** -/
+theorem decoder_reproduces_content : C01_full :=
+  fun f r hb hs hcons hlim => decoder_reproduces_content_of_contract ({} : DecB) [] .nil f hb r hs hcons hlim
+
+/-- **`C01_full_dicts` holds**: dictionaries registered from parsed bytes need no coupling hypothesis
+(`registerDicts_coupled`, from `decodeDict_refines`: the code parses every dictionary the Spec parses, to
+coupled tables, the same content, offsets and id) -/
+theorem decoder_reproduces_content_dicts : C01_full_dicts := by
+  intro raws f r hraws hb hs hcons hlim
+  have hdc := registerDicts_coupled ({} : DecB) [] raws (fun raw h => (hraws raw h).1) (fun raw h => (hraws raw h).2) .nil
+  have hmw : (registerDicts ({} : DecB) raws).maxWindow = ({} : DecB).maxWindow := (registerDicts_state _ raws).2
+  exact decoder_reproduces_content_of_contract _ _ hdc f hb r hs hcons (by rw [hmw]; exact hlim)
+
+/-- the statement as it read over the Spec stand-in (instance A), with the hypothesis it needed -/
+theorem decoder_reproduces_content_standIn (f : List Nat) (r : Spec.FrameResult) (hb : ∀ x ∈ f, x < 256)
+    (hs : Spec.decodeFrame f [] = some r) (hcons : r.consumed = f.length)
+    (hlim : r.header.window ≤ ({} : DecA).maxWindow) :
+    ∃ d' out, (({} : DecA).decodeAll f r.content.length) = (d', .ok out) ∧ out.toList = r.content := by
+  obtain ⟨d', h⟩ := (decoder_reproduces_content_of_contract ({} : DecA) [] .nil f hb r hs hcons hlim).1 _ (Nat.le_refl _)
+  exact ⟨d', _, h, by simp⟩
+
+/-- non-vacuity of `C01_full`: the frame of the first example is exactly one frame, within the limit -/
+example : ∃ r, Spec.decodeFrame [0x28, 0xB5, 0x2F, 0xFD, 0x20, 3, 0x19, 0, 0, 97, 98, 99] [] = some r ∧
+    r.consumed = 12 ∧ r.header.window ≤ ({} : DecB).maxWindow ∧ r.content = [97, 98, 99] := by
+  refine ⟨_, rfl, ?_⟩
+  decide +kernel
 
 end Zstd.Props.C01
